@@ -97,7 +97,7 @@ def r6_refpat(toks, stats):
         n = len(lst)
         while i < n:
             t = lst[i]
-            at_arm_start = (i == 0) or lst[i - 1].is_p(',') or (isinstance(lst[i - 1], Group) and lst[i - 1].delim == '{')
+            at_arm_start = (i == 0) or lst[i - 1].is_p(',') or lst[i - 1].is_p('|') or (isinstance(lst[i - 1], Group) and lst[i - 1].delim == '{')
             if t.is_p('&') and at_arm_start:
                 # scan a path
                 j = i + 1
@@ -112,7 +112,7 @@ def r6_refpat(toks, stats):
                     if k < n and isinstance(lst[k], Group) and lst[k].delim in '({':
                         grp = lst[k]
                         k += 1
-                    if k < n and lst[k].is_p('=>') and _binds_nothing(grp):
+                    if k < n and (lst[k].is_p('=>') or lst[k].is_p('|')) and _binds_nothing(grp):
                         stats['R6'] += 1
                         i += 1      # drop the '&'
                         continue
